@@ -15,7 +15,8 @@
 //!
 //! Oracle. Planning fails → "rejected" (fine, trivial). Otherwise the stream is consumed on a
 //! current-thread runtime until every source partition has produced D tail batches, D = max(B =
-//! 2 000, 4 x batch_size x target_partitions / 8 rows per tail batch) — order-preserving merges
+//! 2 000 (B/4 for the join without pruning, whose cost is quadratic in the input seen),
+//! 4 x batch_size x target_partitions / 8 rows per tail batch) — order-preserving merges
 //! only emit once batch_size merged rows are available, so the bound has to grow with batch_size
 //! (a source parks at 4·D so that slower partitions catch up). Two reference sets are computed per shape by a small model over the prefix:
 //! `may` = every row of the final answer whose `ts` lies in the prefix; `must` ⊆ `may` = the rows
@@ -74,7 +75,10 @@ const TAIL_ROWS: i64 = 8;
 /// (4 such buffers' worth of rows from every source partition), and is never below B.
 fn deadline(case: &Case) -> u64 {
     let need_rows = 4 * case.batch_size.max(1) as u64 * case.target_partitions.clamp(1, 3) as u64;
-    B.max(need_rows.div_ceil(TAIL_ROWS as u64))
+    // a symmetric hash join without pruning re-copies its ever-growing buffers for every input
+    // batch (quadratic): its inner matches are emitted on arrival, a quarter of B is plenty
+    let floor = if matches!(case.shape, QShape::ShjNoRange) { B / 4 } else { B };
+    floor.max(need_rows.div_ceil(TAIL_ROWS as u64))
 }
 
 #[derive(Clone, Copy, Debug, Serialize, Deserialize, PartialEq)]
@@ -199,7 +203,7 @@ fn shape_strategy() -> BoxedStrategy<QShape> {
         2 => Just(QShape::UnionAll),
         3 => Just(QShape::Merge),
         6 => (jt, 0u8..5).prop_map(|(jt, d)| QShape::ShjRange { jt, d }),
-        2 => Just(QShape::ShjNoRange),
+        1 => Just(QShape::ShjNoRange),
         4 => (0u8..3, 0u8..3).prop_map(|(p, f)| QShape::WindowRows { p, f }),
         4 => (0u8..5, 0u8..4).prop_map(|(p, f)| QShape::WindowRange { p, f }),
         3 => Just(QShape::AggOrdered),
